@@ -1,8 +1,14 @@
 package main
 
 import (
+	"context"
 	"fmt"
+	"os"
+	"path/filepath"
 	"strings"
+
+	lisp "github.com/jig/lisp"
+	"github.com/jig/lisp/types"
 
 	. "verif.local/harness/h"
 )
@@ -158,6 +164,87 @@ func runC17(tier string, seed uint64, rep *Report) {
 		}
 		if m != 1 || b < fs || e > fe || b > fl || e < fl {
 			rep.Violate(idx, fmt.Sprintf("wrong position for fault %s: reported rows %d..%d (module named: %v), the fault is on line %d of the top-level form spanning lines %d..%d", desc, b, e, m == 1, fl, fs, fe), text)
+		}
+	}
+	// ---- the same modules delivered by load-file from files that begin with blank / white-space-only lines: the
+	// position must name the file and still cover the line where the fault starts
+	nf := 60
+	if tier == "thorough" {
+		nf = 1500
+	}
+	dir, err := os.MkdirTemp("", "c17files")
+	if err != nil {
+		panic(err)
+	}
+	defer os.RemoveAll(dir)
+	for i := 0; i < nf; i++ {
+		text, fl, fs, fe, desc := g.module()
+		k := g.r.Intn(4)
+		lead := ""
+		for j := 0; j < k; j++ {
+			lead += []string{"", "   ", "\t"}[g.r.Intn(3)] + "\n"
+		}
+		path := filepath.Join(dir, fmt.Sprintf("m%d.lisp", i))
+		if err := os.WriteFile(path, []byte(lead+text+"\n"), 0o644); err != nil {
+			panic(err)
+		}
+		w, _ := NewWorld()
+		o := w.EvalText(context.Background(), fmt.Sprintf("(load-file %q)", path))
+		g.hist[fmt.Sprintf("load-file-leading-blank-lines:%d", k)]++
+		idx := rep.Add("E 1 "+encSrc("nil"), "V n | l 0 | p - ", fmt.Sprintf("load-file of a file with %d leading blank lines, fault %s at line %d", k, desc, fl+k), true, "load-file")
+		if o.Panic != nil || o.Err == nil {
+			rep.Violate(idx, fmt.Sprintf("load-file: expected the planted fault's error, got %s", d2o(o)), lead+text)
+			continue
+		}
+		var m, b, e int
+		if _, err := fmt.Sscanf(posLine(o), "p %d %d %d", &m, &b, &e); err != nil {
+			rep.Violate(idx, fmt.Sprintf("load-file: the error carries no position: fault %s at line %d", desc, fl+k), lead+text)
+			continue
+		}
+		if m != 1 || b < fs+k || e > fe+k || b > fl+k || e < fl+k {
+			rep.Violate(idx, fmt.Sprintf("load-file of a file with %d leading blank lines: wrong position for fault %s: reported rows %d..%d, the fault is on line %d (form spanning %d..%d)", k, desc, b, e, fl+k, fs+k, fe+k), lead+text)
+		} else if p, ok := o.Err.(interface{ Position() *types.Position }); ok && (p.Position().Module == nil || *p.Position().Module != path) {
+			rep.Violate(idx, fmt.Sprintf("load-file: the position names module %v, the fault is in %s", p.Position().Module, path), lead+text)
+		}
+	}
+	// ---- two texts read one after the other under ONE cursor variable whose name the host changes in between: an
+	// error inside a function the first text defined, called from the second, must name the first module
+	ns := 40
+	if tier == "thorough" {
+		ns = 800
+	}
+	for i := 0; i < ns; i++ {
+		fault := []string{"(throw \"boom\")", "(first 5)", "(undefined-sym 1)", "(assert false)", "(nth [1] 9)"}[g.r.Intn(5)]
+		lib := "(do\n  (def helper (fn [x]\n    (do x " + fault + ")))\n  :lib)"
+		main := "(do\n\n\n\n  (trace! 1)\n  " + []string{"(helper 1)", "(map helper [1])", "(apply helper [1])"}[g.r.Intn(3)] + ")"
+		w, _ := NewWorld()
+		name := "lib.lisp"
+		cur := types.NewCursorFile(name)
+		cur.Module = &name
+		a1, err1 := lisp.READ(lib, cur, w.Env)
+		if err1 != nil {
+			panic(err1)
+		}
+		if o := w.Eval(context.Background(), a1); o.Err != nil || o.Panic != nil {
+			panic(fmt.Sprint("harness: lib failed: ", o.Err, o.Panic))
+		}
+		name = "main.lisp" // the host reuses its variable
+		cur2 := types.NewCursorFile(name)
+		cur2.Module = &name
+		a2, err2 := lisp.READ(main, cur2, w.Env)
+		if err2 != nil {
+			panic(err2)
+		}
+		o := w.Eval(context.Background(), a2)
+		g.hist["two-modules-one-name-variable"]++
+		idx := rep.Add("E 1 "+encSrc("nil"), "V n | l 0 | p - ", "lib.lisp: "+lib+" ; then main.lisp: "+main, true, "two-modules")
+		p, ok := o.Err.(interface{ Position() *types.Position })
+		if o.Err == nil || !ok || p.Position() == nil || p.Position().Module == nil {
+			rep.Violate(idx, fmt.Sprintf("expected a positioned error from the function defined in lib.lisp, got %s", d2o(o)), lib+"\n----\n"+main)
+			continue
+		}
+		if *p.Position().Module != "lib.lisp" || p.Position().BeginRow != 3 {
+			rep.Violate(idx, fmt.Sprintf("the fault is on line 3 of lib.lisp, the position says %s line %d", *p.Position().Module, p.Position().BeginRow), lib+"\n----\n"+main)
 		}
 	}
 	mergeHist(rep, g.hist)
